@@ -4,7 +4,8 @@ Decided: the format dispatch is total and consistent (sniffer results = branches
 every connectivity a reader emits is in standard form on every path (typestate dtype x sentinel x base x padding from the format specification's source state to the sink);
 each emitted variable is built from the source variables the format specification assigns to that role (MPAS primal and dual, ICON, ESMF, SCRIP, Exodus, GEOS);
 radian sources are converted and lon/lat/x/y/z roles preserved, incl. tuple returns of the polygon readers;
-attribute-presence tests address attributes; every Exodus connect block reaches the output in file order; longitudes are normalised on every construction path."""
+attribute-presence tests address attributes; every Exodus connect block reaches the output in file order; longitudes are normalised on every construction path.
+the smallest index in use serves as index base only where the start_index attribute is known to be absent; readers normalise the file's Cartesian coordinates by their length; polygon vertices come from the exterior ring only."""
 
 import ast
 
